@@ -407,7 +407,26 @@ func (r *Runner) crossChecks(prop string, res *runResult) (map[string]interface{
 			}
 		}
 	}
+	// the assumed library contracts, exercised on the real library (bounded)
+	externRun, externOK := 0, 0
+	if src, err := os.ReadFile(filepath.Join(r.verif, "replaytests", "extern_contracts.go")); err == nil {
+		externRun = 1
+		out, cmd := runOverlayTest(r.w.RepoDir, repoModule+"/reader", string(src), "TestVrfReplay")
+		switch {
+		case strings.Contains(out, "VRF-RESULT HOLDS"):
+			externOK = 1
+		default:
+			reason := "the cross-check of the assumed library contracts did not hold or did not run"
+			for _, l := range strings.Split(out, "\n") {
+				if strings.HasPrefix(strings.TrimSpace(l), "VRF-RESULT VIOLATED") {
+					reason = strings.TrimPrefix(strings.TrimSpace(l), "VRF-RESULT VIOLATED ")
+				}
+			}
+			record("extern.contracts#crosscheck", reason, string(src), out, cmd)
+		}
+	}
 	return map[string]interface{}{
+		"extern_contract_crosscheck_run": externRun, "extern_contract_crosscheck_held": externOK,
 		"ground_facts_rechecked_at_run_time": ran, "ground_facts_held": held,
 		"witness_tests_run": witness, "witness_tests_held": witnessOK, "failures": failures,
 		"rule": "bounded: one execution of the compiled package per ground fact / witness test; not part of the proof, a cross-check of the tool's reading of the sources",
